@@ -263,6 +263,68 @@ def cc_config():
     return cfg, 6.0, mf, ((("B", "C"), "D"), "E")
 
 
+# ------------------------------------------------------------------ fixed configurations of the second hunt round
+PMF = {"B": 0.5, "C": 0.14, "D": 0.14}
+EAGER = ("cached_amp", "cached_shape", "base_factor", "p4_directly")
+
+
+def pinned_strategy_configs():
+    """(tag, cfg, M0, mf, tree, extra, spec).  spec: only = strategies run in the quick tier, boost = lab velocity of the
+    whole event, move = the trainable parameters change between preprocessing and evaluation, no_rebuild = the density is
+    not |sum of chain tensors|^2, known = strategy -> OPEN finding (site, fingerprint)"""
+    out = []
+    # moving parent with restricted helicities: the direction of the z axis matters (random_z default of the data section)
+    res = {"R_BC": {"pair": "R_BC", "J": 1, "P": -1, "mass": 0.9, "width": 0.05}, "R_CD": {"pair": "R_CD", "J": 2, "P": 1, "mass": 0.7, "width": 0.3}}
+    cfg = ampkit.three_body_config(1.9, PMF, res, top=(1, -1), decay_opts={k: {"p_break": True} for k in res})
+    cfg["particle"]["$top"]["A"]["spins"] = [-1, 1]
+    out.append(("boost", cfg, 1.9, PMF, None, None, {"only": ("cached_amp", "p4_directly"), "boost": [0.01, 0.0, 0.02]}))
+    # CP-violating helicity couplings (decay model gls-cpv), events of charge +1 only
+    res = {"R_BC": {"pair": "R_BC", "J": 1, "P": -1, "mass": 0.9, "width": 0.05}, "R_CD": {"pair": "R_CD", "J": 2, "P": 1, "mass": 0.7, "width": 0.3}}
+    cfg = ampkit.three_body_config(1.9, PMF, res, top=(1, -1), decay_opts={"R_BC": {"p_break": True, "model": "gls-cpv"}})
+    out.append(("glscpv", cfg, 1.9, PMF, None, None, {"only": ("cached_amp", "cached_shape", "base_factor")}))
+    # a line shape whose floating parameters live in a list (Flatte couplings g_i): evaluated after the trainable
+    # parameters moved away from the values they had when the data were preprocessed
+    res = {"R_BC": {"pair": "R_BC", "J": 1, "P": -1, "mass": 0.9, "model": "Flatte", "mass_list": [[0.5, 0.14], [0.6, 0.6]]},
+           "R_CD": {"pair": "R_CD", "J": 0, "P": 1, "mass": 0.6, "width": 0.3}}
+    cfg = ampkit.three_body_config(1.9, PMF, res)
+    out.append(("flatte", cfg, 1.9, PMF, None, None, {"only": ("cached_amp", "cached_shape", "base_factor"), "move": True}))
+    # cp_particles symmetrisation (the CP-swapped amplitude is added): OPEN finding for the cached strategies
+    mf = {"B": 0.3, "C": 0.3, "D": 0.14}
+    res = {"R_BD": {"pair": "R_BD", "J": 1, "P": -1, "mass": 0.9, "width": 0.1}, "R_BC": {"pair": "R_BC", "J": 0, "P": 1, "mass": 1.0, "width": 0.3}}
+    cfg = ampkit.three_body_config(1.9, mf, res, data_opts={"cp_particles": [["B", "C"]]})
+    cfg["particle"]["$finals"]["D"]["C"] = 1  # its own antiparticle
+    kn = ("cached strategies (cached_amp / cached_shape / base_factor) with cp_particles", "cp_particles:cached")
+    out.append(("cpswap", cfg, 1.9, mf, None, None, {"only": ("cached_amp", "cached_shape", "base_factor", "p4_directly"), "no_rebuild": True,
+                                                      "known": {"cached_amp": kn, "cached_shape": kn, "base_factor": kn}}))
+    return out
+
+
+def pinned_likelihood_configs():
+    """(tag, cfg, M0, mf, spec).  spec: models = likelihood models compared with the default one, set = parameter values
+    set on top of the random couplings, known = model -> OPEN finding, int_first = also build the cached integral
+    (experimental.opt_int.cached_int_mc) as the FIRST evaluation of a fresh amplitude"""
+    out = []
+    fin = {"B": (0.5, 1), "C": (0.5, 1), "D": (0, -1)}
+    # R_BC -> B C with (l,s) = (1,0),(0,1),(1,1),(2,1): the first coupling does not have the minimal l
+    res = {"R_BC": {"pair": "R_BC", "J": 1, "P": -1, "mass": 0.9, "width": 0.1}, "R_BD": {"pair": "R_BD", "J": 0.5, "P": 1, "mass": 1.0, "width": 0.2}}
+    cfg = ampkit.three_body_config(1.9, PMF, res, fin=fin)
+    cfg["decay"]["R_BC"] = ["B", "C", {"p_break": True}]
+    out.append(("lfirst", cfg, 1.9, PMF, {"models": (), "int_first": True}))
+    import copy
+    cfg2 = copy.deepcopy(cfg)
+    cfg2["decay"]["R_BC"] = ["B", "C", {"p_break": True, "force_min_l": True}]
+    out.append(("forceminl", cfg2, 1.9, PMF, {"models": ("cached_int", "cached_amp")}))
+    # polarised spin-1/2 parent (density matrix rho): OPEN finding for the cached likelihood models
+    mf = {"B": 0.938, "C": 0.494, "D": 0.139}
+    res = {"R_BC": {"pair": "R_BC", "J": 1.5, "P": -1, "mass": 1.52, "width": 0.05}, "R_CD": {"pair": "R_CD", "J": 1, "P": -1, "mass": 0.892, "width": 0.05}}
+    cfg = ampkit.three_body_config(2.286, mf, res, top=(0.5, 1), fin={"B": (0.5, 1), "C": (0, -1), "D": (0, -1)}, decay_opts={k: {"p_break": True} for k in res})
+    cfg["particle"]["$top"]["A"]["polarization"] = "vector"
+    kn = ("cached likelihood models (cached_int / cached_amp) with a polarised parent (polarization: vector)", "polarization:cached_likelihood")
+    out.append(("polar", cfg, 2.286, mf, {"models": ("cached_int", "cached_amp"), "known": {"cached_int": kn, "cached_amp": kn},
+                                          "set": {"A_polarization_px": 0.3, "A_polarization_py": -0.2, "A_polarization_pz": 0.6}}))
+    return out
+
+
 def cal_data(config, p4, extra):
     data = config.data.cal_angle(p4, **extra) if extra else config.data.cal_angle(p4)
     for k, v in (extra or {}).items():
@@ -273,7 +335,8 @@ def cal_data(config, p4, extra):
     return data
 
 
-def strategy_density(cfg, opts, pars, p4, extra=None):
+def strategy_density(cfg, opts, pars, p4, extra=None, pars_pre=None):
+    """pars_pre: the parameter values at the time the data are preprocessed (default: the evaluation values)"""
     from tf_pwa.config_loader import ConfigLoader
     from tf_pwa.data import LazyCall
     import copy
@@ -281,34 +344,47 @@ def strategy_density(cfg, opts, pars, p4, extra=None):
     c["data"].update(opts)
     config = ConfigLoader(c)
     amp = config.get_amplitude()
-    amp.set_params(pars)
+    amp.set_params(pars_pre if pars_pre is not None else pars)
     data = cal_data(config, p4, extra)
+    amp.set_params(pars)
     first = np.array(amp(data.eval() if isinstance(data, LazyCall) and not hasattr(amp, "cached_fun") else data))
     second = np.array(amp(data.eval() if isinstance(data, LazyCall) and not hasattr(amp, "cached_fun") else data))
     return first, second
 
 
-def builder_and_strategy_cases(ctx, rnd, tier, cases):
+def builder_and_strategy_cases(ctx, rnd, tier, cases, tags=None):
     from tf_pwa.config_loader import ConfigLoader
     nev = 2
     import copy
-    todo = [(tag, cfg, M0, mf, None, None) for tag, cfg, M0, mf, _tree in configs(rnd) if _tree is None]
+    todo = [(tag, cfg, M0, mf, None, None, {}) for tag, cfg, M0, mf, _tree in configs(rnd) if _tree is None]
     ccfg, cM0, cmf, ctree = cc_config()
-    todo.append(("cc4", ccfg, cM0, cmf, ctree, {"charge_conjugation": np.array([-1.0, 1.0])}))
+    todo.append(("cc4", ccfg, cM0, cmf, ctree, {"charge_conjugation": np.array([-1.0, 1.0])}, {}))
     # charge conjugation applied on the MOMENTA (cp_trans at its default): every strategy has to reflect the charge -1 events
     c2 = copy.deepcopy(ccfg); c2["data"].pop("cp_trans", None)
-    todo.append(("cc4cp", c2, cM0, cmf, ctree, {"charge_conjugation": np.array([-1.0, 1.0])}))
+    todo.append(("cc4cp", c2, cM0, cmf, ctree, {"charge_conjugation": np.array([-1.0, 1.0])}, {}))
     # CP-violating chain couplings (is_cp: total * (1 + charge * delta)): the per-event charge reaches the couplings
     c3_ = copy.deepcopy(c2); c3_["decay_chain"] = {"$all": {"is_cp": True}}
-    todo.append(("cc4iscp", c3_, cM0, cmf, ctree, {"charge_conjugation": np.array([-1.0, 1.0])}))
+    kn_iscp = ("amp_model cached_shape with CP-violating chain couplings (is_cp) and charge -1 events", "cached_shape:is_cp")
+    todo.append(("cc4iscp", c3_, cM0, cmf, ctree, {"charge_conjugation": np.array([-1.0, 1.0])}, {"known": {"cached_shape": kn_iscp}}))
     # declared identical (spin-0) particles: the symmetrised amplitude
     imf = {"B": 0.5, "C": 0.14, "D": 0.14}
     ires = {"R_BC": {"pair": "R_BC", "J": 1, "P": -1, "mass": 0.9, "width": 0.05}, "R_CD": {"pair": "R_CD", "J": 0, "P": 1, "mass": 0.6, "width": 0.3}}
-    todo.append(("ident", ampkit.three_body_config(1.9, imf, ires, data_opts={"identical_particles": [["C", "D"]]}), 1.9, imf, None, None))
-    for tag, cfg, M0, mf, tree, extra in todo:
+    kn_ident = ("cached strategies (cached_amp / cached_shape / base_factor) with declared identical particles", "identical_particles:cached")
+    todo.append(("ident", ampkit.three_body_config(1.9, imf, ires, data_opts={"identical_particles": [["C", "D"]]}), 1.9, imf, None, None,
+                 {"no_rebuild": True, "known": {k: kn_ident for k in ("cached_amp", "cached_shape", "base_factor")}}))
+    todo += pinned_strategy_configs()
+    for tag, cfg, M0, mf, tree, extra, spec in todo:
+        if tags is not None and tag not in tags:
+            continue  # (debugging aid: a subset of the rows)
         config = ConfigLoader(cfg)
         amp = config.get_amplitude()
         pars = ampkit.random_params(amp, rnd)
+        pars_pre = None
+        if spec.get("move"):
+            # only trainable parameters move (what a fit does between the preprocessing of the data and an evaluation)
+            pars_pre = dict(pars)
+            for k in amp.vm.trainable_vars:
+                pars_pre[k] = 0.6 * pars[k] + 0.25
         if tag == "cc4iscp":
             pp = dict(amp.get_params())
             for k in pp:
@@ -316,10 +392,14 @@ def builder_and_strategy_cases(ctx, rnd, tier, cases):
                     pp[k] = rnd.uniform(-0.5, 0.5)
             amp.set_params(pp); pars = {k: float(v) for k, v in amp.get_params().items()}
         p4 = ampkit.gen_events(M0, mf, nev, rnd.randrange(10 ** 6)) if tree is None else ampkit.gen_tree_events(tree, mf, M0, nev, rnd.randrange(10 ** 6))
+        if spec.get("boost"):
+            p4 = ampkit.lorentz_transform(p4, boost=spec["boost"])
         data = cal_data(config, p4, extra)
         with Capture() as cap:
             dens = np.array(amp(data))
         meta0 = {"config": cfg, "params": {k: float(v) for k, v in pars.items()}, "events": {k: v.tolist() for k, v in p4.items()}}
+        if pars_pre is not None:
+            meta0["params_at_preprocessing"] = {k: float(v) for k, v in pars_pre.items()}
         # chain tensors through the public seam (set_used_chains); the einsum captures feed layer B only,
         # because the builder falls back to tf.einsum when the custom routine declines
         chain_tensors, _full = ampkit.chain_amps(amp, data)
@@ -333,7 +413,7 @@ def builder_and_strategy_cases(ctx, rnd, tier, cases):
         # density rebuilt in Coq from the chain tensors (event by event)
         rebuilt = []
         for e in range(nev):
-            if tag == "ident":
+            if spec.get("no_rebuild"):
                 # the symmetrised density is not |sum of chain tensors|^2: the strategies are compared with the default density itself
                 rebuilt.append(None)
                 continue
@@ -349,7 +429,9 @@ def builder_and_strategy_cases(ctx, rnd, tier, cases):
                     continue  # lazy data carry the extras through LazyCall.extra: covered by C18
                 if tier == "quick" and tag in ("cc4cp", "cc4iscp") and sname in ("tf_function", "tf_function_no_id", "jit_compile"):
                     continue  # graph compilation of the 4-body cascade is exercised on cc4 (and on these two in the thorough tier)
-                first, second = strategy_density(cfg, opts, pars, p4, extra)
+                if tier == "quick" and spec.get("only") and sname not in spec["only"]:
+                    continue  # fixed configurations: the cells named in the spec (the whole row in the thorough tier)
+                first, second = strategy_density(cfg, opts, pars, p4, extra, pars_pre)
             except Exception as ex:
                 ctx.count("strategy_error:" + sname)
                 ctx.notes.append("strategy %s on %s raised %r" % (sname, tag, type(ex).__name__))
@@ -363,12 +445,8 @@ def builder_and_strategy_cases(ctx, rnd, tier, cases):
                 continue
             ctx.count("strategy:" + sname)
             ctx.evaluations += 2
-            # OPEN findings, reported from these two fixed configurations only (every other (config, strategy) cell is regular):
-            known = None
-            if tag == "ident" and sname in ("cached_amp", "cached_shape", "base_factor"):
-                known = ("cached strategies (cached_amp / cached_shape / base_factor) with declared identical particles", "identical_particles:cached")
-            if tag == "cc4iscp" and sname == "cached_shape":
-                known = ("amp_model cached_shape with CP-violating chain couplings (is_cp) and charge -1 events", "cached_shape:is_cp")
+            # OPEN findings, reported from the fixed configurations that name them only (every other (config, strategy) cell is regular):
+            known = spec.get("known", {}).get(sname)
             for which, val in (("first", first), ("second", second)):
                 for e in range(nev):
                     tol = 1e-9 * max(1e-300, float(dens[e]))
@@ -383,22 +461,45 @@ def builder_and_strategy_cases(ctx, rnd, tier, cases):
                     ctx.distinct.add(("S", tag, sname, which, e))
 
 
-def likelihood_cases(ctx, rnd, cases):
+def likelihood_cases(ctx, rnd, cases, tags=None):
     """cached_int / cached_amp likelihood models vs the default one: same NLL and gradient (line shape fixed)"""
     import copy
     from tf_pwa.config_loader import ConfigLoader
-    for tag, cfg, M0, mf, _tree in configs(rnd)[:2]:
+    todo = [(tag, cfg, M0, mf, {"models": ("cached_int", "cached_amp")}) for tag, cfg, M0, mf, _tree in configs(rnd)[:2]]
+    todo += pinned_likelihood_configs()
+    for tag, cfg, M0, mf, spec in todo:
+        if tags is not None and tag not in tags:
+            continue
         data_p4 = ampkit.gen_events(M0, mf, 12, rnd.randrange(10 ** 6))
         phsp_p4 = ampkit.gen_events(M0, mf, 30, rnd.randrange(10 ** 6))
         vals = {}
         pars = None
         for name, opts in (("default", {}), ("cached_int", {"cached_int": True}), ("cached_amp", {"cached_amp": True})):
+            if name != "default" and name not in spec["models"]:
+                continue
             c = copy.deepcopy(cfg); c["data"].update(opts)
             config = ConfigLoader(c)
             amp = config.get_amplitude()
             if pars is None:
                 pars = ampkit.random_params(amp, rnd)
+                pars.update(spec.get("set", {}))
             amp.set_params(pars)
+            if spec.get("int_first"):
+                # the cached integral as the FIRST evaluation of this fresh amplitude (nothing has fixed any lazily
+                # initialised attribute yet) against the default density summed over the same events, evaluated by
+                # another fresh object
+                from tf_pwa.experimental.opt_int import cached_int_mc
+                phsp = config.data.cal_angle(phsp_p4)
+                got = float(cached_int_mc(amp.decay_group, phsp)())
+                config0 = ConfigLoader(copy.deepcopy(cfg)); amp0 = config0.get_amplitude(); amp0.set_params(pars)
+                ref0 = float(np.sum(np.array(amp0(config0.data.cal_angle(phsp_p4)))))
+                meta = {"layer": "likelihood_strategy", "config": cfg, "model": "experimental.opt_int.cached_int_mc as the first evaluation of a fresh amplitude",
+                        "params": {k: float(v) for k, v in pars.items()}, "events": {k: v.tolist() for k, v in phsp_p4.items()},
+                        "default": ["sum of the default density", ref0], "value": ["cached integral", got]}
+                cases.append(("L_%s_int_first" % tag, "Qle_bool (Qabs (%s - %s)) %s = true" % (Qq(ref0), Qq(got), Qq(1e-9 * max(1.0, abs(ref0)))), "vm_compute; reflexivity", meta))
+                ctx.evaluations += 1
+                ctx.distinct.add(("L", tag, "int_first"))
+                continue
             data = config.data.cal_angle(data_p4); phsp = config.data.cal_angle(phsp_p4)
             try:
                 fcn = config.get_fcn([[data], [phsp], None, None], batch=7)
@@ -411,9 +512,14 @@ def likelihood_cases(ctx, rnd, cases):
         ref = vals.get("default")
         if ref is None:
             continue
-        for name in ("cached_int", "cached_amp"):
+        for name in spec["models"]:
             v = vals.get(name)
-            meta = {"layer": "likelihood_strategy", "config": cfg, "model": name, "default": ref, "value": v}
+            meta = {"layer": "likelihood_strategy", "config": cfg, "model": name, "default": ref, "value": v,
+                    "params": {k: float(x) for k, x in pars.items()}, "data_events": {k: x.tolist() for k, x in data_p4.items()}, "phsp_events": {k: x.tolist() for k, x in phsp_p4.items()}}
+            known = spec.get("known", {}).get(name)
+            if known:
+                meta["known"] = known
+                meta["detail"] = "likelihood model %s: NLL %.8g, default model %.8g" % (name, v[0] if v else float("nan"), ref[0])
             if v is None:
                 cases.append(("L_%s_%s" % (tag, name), "false = true", "reflexivity", meta))
                 continue
@@ -440,7 +546,7 @@ def search(ctx, fails):
         if m.get("layer") == "strategy" and "error" in m:
             return {k: m[k] for k in ("config", "params", "events", "strategy", "options", "error")}
         if m.get("layer") == "likelihood_strategy":
-            return {k: m[k] for k in ("config", "model", "default", "value")}
+            return {k: m[k] for k in ("config", "model", "default", "value", "params", "events", "data_events", "phsp_events") if k in m}
     return None
 
 
@@ -461,7 +567,7 @@ def run(ctx):
     for cid, stmt, tac, meta in cases:
         if res[cid] != "OK":
             if meta.get("known"):
-                ctx.fail(meta["layer"], cid, "strategy %s: density %.6g, default evaluation %.6g" % (meta["strategy"], meta["impl_density"], meta["default_density"]), inp=meta,
+                ctx.fail(meta["layer"], cid, meta.get("detail") or "strategy %s: density %.6g, default evaluation %.6g" % (meta["strategy"], meta["impl_density"], meta["default_density"]), inp=meta,
                          site=meta["known"][0], fingerprint=meta["known"][1], failing_input={k: v for k, v in meta.items() if k != "known"})
                 continue
             ctx.fail(meta["layer"], cid, "value differs from the reference semantics at layer %s (%s)" % (meta["layer"], res[cid]), inp=meta,
